@@ -54,12 +54,16 @@ def cases(tier, seed):
             for lens in ([7, 5], [6, 6, 2], [9], [10, 1, 3], [5, 5]):
                 tables.append(gen.binnify(lens, b))
         tables += list(gen.REPRESENTATIVE_TABLES.values())
+    nth = 0
     for k, table in enumerate(tables):
         n = len(table)
         mode = "symm" if k % 4 else "square"
         qs = queries(table, rng, limit=60 if tier == "quick" else 120)
         for part in range(0, len(qs), 30):
-            yield "ext.cooler", {"table": table, "mode": mode, "px": dense_px(n, mode), "qs": qs[part:part + 30]}
+            nth += 1
+            yield "ext.cooler", {"table": table, "mode": mode, "px": dense_px(n, mode), "qs": qs[part:part + 30],
+                                 **({"at": ["/resolutions/10", "/a/b"][nth % 2], "open": ["handle", "uri"][nth % 3 == 0]}
+                                    if nth % 4 == 1 else {})}
     # refusals
     for table in list(gen.REPRESENTATIVE_TABLES.values()):
         lens = gen.chrom_lens(table)
